@@ -6,9 +6,11 @@ import (
 	"go/token"
 	"go/types"
 	"os"
+	"strconv"
 	"strings"
 
 	"golang.org/x/tools/go/cfg"
+	"golang.org/x/tools/go/packages"
 )
 
 // Rules written after the fifth round of seeded changes (see DESIGN.md, section 7quater).
@@ -437,8 +439,28 @@ func (c *Ctx) lastLine(rule string, funcs []*FuncInfo, clause string) (calls, vi
 			}
 			calls++
 			key := funcName(fi.Obj) + "/" + fn.Name()
+			// ReadLine strips "\r\n" as well as "\n"; ReadString keeps the delimiter and whatever
+			// precedes it: a reader built on it must strip the carriage return itself
+			stripsCR := false
+			ast.Inspect(fi.Decl.Body, func(n ast.Node) bool {
+				if lit, ok := n.(*ast.BasicLit); ok && lit.Kind == token.STRING && strings.Contains(lit.Value, `\r`) {
+					stripsCR = true
+				}
+				if lit, ok := n.(*ast.BasicLit); ok && lit.Kind == token.CHAR && lit.Value == `'\r'` {
+					stripsCR = true
+				}
+				return true
+			})
+			if cl, ok := n2TrimSpace(info, fi.Decl.Body); ok && cl {
+				stripsCR = true
+			}
+			if handlesEOF && stripsCR {
+				c.OK(rule, key, call.Pos(), "the function tests the error against io.EOF and strips the carriage return").Clause = clause
+				continue
+			}
 			if handlesEOF {
-				c.OK(rule, key, call.Pos(), "the function tests the error against io.EOF").Clause = clause
+				violations++
+				c.Violation(rule, key, call.Pos(), "`"+c.src(call)+"` keeps the line terminator: with the line feed alone removed, every line of a file with Windows line endings keeps its carriage return (the ReadLine-based reader stripped both), so names read from such a file never match").Clause = clause
 				continue
 			}
 			violations++
@@ -465,7 +487,7 @@ func (c *Ctx) lastLineIn(clause string, files ...string) {
 	if fx := c.Fixture(); fx != nil {
 		sub := c.subCtx(fx)
 		_, nv := sub.lastLine("LASTLINE", sub.AllFuncs(), "")
-		c.Control("LASTLINE", nv == 2, "fixture.C05ReadString reads lines with ReadString and never looks at io.EOF")
+		c.Control("LASTLINE", nv == 3, "fixture.C05ReadString reads lines with ReadString and never looks at io.EOF")
 	}
 }
 
@@ -1539,4 +1561,725 @@ func (c *Ctx) compareEntryGuards(fi *FuncInfo, fl *ast.FuncLit, name string) {
 		c.Check(good && isNilIdent(info, r.Results[0]), "GF", key, r.Pos(), "error returned under a failed entry test", "an error return of "+name+" is not under a positive test `reference tree == nil` / `err != nil`: the function fails on valid input or goes on after a failure").Clause = clause
 		return true
 	})
+}
+
+// ---------------------------------------------------------------------------------------------
+// ARGNAME: a command hands its option variables to the library by position. Where the callee's
+// boolean parameter has a telling name (five letters or more) and the command owns an option variable of the
+// same type whose name contains that parameter name, the argument is that variable: passing another
+// option variable of the same type (the neighbouring bool) compiles and silently wires the wrong
+// option. Only reported when the argument's own name does not contain the parameter name while
+// another registered option variable of the command's file does.
+func (c *Ctx) argName(rule string, funcs []*FuncInfo, clause string) (sites, violations int) {
+	regs, _ := c.collectFlagRegs()
+	optVar := map[types.Object]bool{}
+	for _, r := range regs {
+		if r.vobj != nil {
+			optVar[r.vobj] = true
+		}
+	}
+	norm := func(s string) string { return strings.ToLower(strings.ReplaceAll(s, "_", "")) }
+	for _, fi := range funcs {
+		info := fi.Pkg.TypesInfo
+		for _, call := range callsIn(fi.Decl.Body, true) {
+			g := calleeOf(info, call)
+			if g == nil || !inRepo(g) || g.Pkg() == fi.Pkg.Types {
+				continue
+			}
+			sig := g.Type().(*types.Signature)
+			for i := 0; i < sig.Params().Len() && i < len(call.Args); i++ {
+				p := sig.Params().At(i)
+				pn := norm(p.Name())
+				if len(pn) < 5 {
+					continue
+				}
+				// switches only: two bool options of one command are interchangeable for the compiler
+				// and their parameter names say what they switch (a string parameter called `output`
+				// says little)
+				if b, basic := p.Type().Underlying().(*types.Basic); !basic || b.Info()&types.IsBoolean == 0 {
+					continue
+				}
+				a := identObj(info, call.Args[i])
+				if a == nil || !optVar[a] {
+					continue
+				}
+				sites++
+				key := fmt.Sprintf("%s/%s(%s)", funcName(fi.Obj), g.Name(), p.Name())
+				if strings.Contains(norm(a.Name()), pn) {
+					c.OK(rule, key, call.Args[i].Pos(), "`"+a.Name()+"` passed for parameter "+p.Name()).Clause = clause
+					continue
+				}
+				// another option variable of the same file and type named after the parameter?
+				var better types.Object
+				af, _ := c.pos(a.Pos())
+				for v := range optVar {
+					vf, _ := c.pos(v.Pos())
+					if v != a && vf == af && types.Identical(v.Type(), a.Type()) && strings.Contains(norm(v.Name()), pn) {
+						better = v
+					}
+				}
+				if better != nil {
+					violations++
+					c.Violation(rule, key, call.Args[i].Pos(), fmt.Sprintf("`%s` is passed for parameter `%s` of %s although the command's option variable `%s` (same type) is the one named after that parameter: the option the user sets is not the one the library receives", a.Name(), p.Name(), g.Name(), better.Name())).Clause = clause
+				} else {
+					c.OK(rule, key, call.Args[i].Pos(), "`"+a.Name()+"` passed for parameter "+p.Name()+" (no option variable named after it)").Clause = clause
+				}
+			}
+		}
+	}
+	return
+}
+
+// ---------------------------------------------------------------------------------------------
+// TRUNC: an output file of a command is opened so that what it held before is gone: os.Create, or
+// os.OpenFile whose flags include O_TRUNC (or O_APPEND/O_EXCL, which never leave stale bytes after
+// the new ones). O_WRONLY|O_CREATE alone writes over the beginning of an existing longer file and
+// leaves its tail: the output then holds the new trees followed by part of an old run.
+func (c *Ctx) truncOutputs(rule string, funcs []*FuncInfo, clause string) (sites, violations int) {
+	for _, fi := range funcs {
+		info := fi.Pkg.TypesInfo
+		k := 0
+		for _, call := range callsIn(fi.Decl.Body, true) {
+			g := calleeOf(info, call)
+			if g == nil || g.Pkg() == nil || g.Pkg().Path() != "os" {
+				continue
+			}
+			switch g.Name() {
+			case "Create":
+				sites++
+				k++
+				c.OK(rule, fmt.Sprintf("%s/os.Create#%d", funcName(fi.Obj), k), call.Pos(), "os.Create truncates").Clause = clause
+			case "OpenFile":
+				if len(call.Args) != 3 {
+					continue
+				}
+				tv, ok := info.Types[call.Args[1]]
+				if !ok || tv.Value == nil {
+					continue
+				}
+				var flags int64
+				fmt.Sscan(tv.Value.ExactString(), &flags)
+				const oWRONLY, oRDWR, oAPPEND, oCREATE, oEXCL, oTRUNC = 0x1, 0x2, 0x400, 0x40, 0x80, 0x200
+				if flags&(oWRONLY|oRDWR) == 0 {
+					continue // read-only
+				}
+				sites++
+				k++
+				key := fmt.Sprintf("%s/os.OpenFile#%d", funcName(fi.Obj), k)
+				if flags&(oTRUNC|oAPPEND|oEXCL) == 0 {
+					violations++
+					c.Violation(rule, key, call.Pos(), "`"+c.src(call)+"` opens an output file for writing without O_TRUNC: when the file exists and is longer than what is written now, the old tail stays behind the new content").Clause = clause
+				} else {
+					c.OK(rule, key, call.Pos(), "opened with O_TRUNC/O_APPEND/O_EXCL").Clause = clause
+				}
+			}
+		}
+	}
+	return
+}
+
+// ---------------------------------------------------------------------------------------------
+// DESCENT: a recursive walk of the tree that must reach every node descends into every neighbour
+// other than the one it came from: the only condition on its recursive call that mentions the
+// neighbour is `n != previous` (a further clause such as "only where something is left to do here"
+// cuts off everything below a node where nothing is to do).
+func (c *Ctx) descentEverywhere(rule string, fi *FuncInfo, clause string) {
+	info := fi.Pkg.TypesInfo
+	prev := paramObj(info, fi.Decl, 1)
+	n := 0
+	for _, call := range callsIn(fi.Decl.Body, false) {
+		if calleeOf(info, call) != fi.Obj || len(call.Args) < 2 {
+			continue
+		}
+		n++
+		key := fmt.Sprintf("%s/descends-into-every-neighbour#%d", fi.Name(), n)
+		child := identObj(info, call.Args[0])
+		conds, okc := c.pathConds(info, fi.Decl.Body, call, true)
+		if !okc || child == nil || prev == nil {
+			c.Undecided(rule, key, call.Pos(), "guard shape not understood")
+			continue
+		}
+		o := &canonOpts{subst: map[types.Object]string{child: "$N", prev: "$PREV"}}
+		var rel []cond
+		for _, cd := range conds {
+			if cd.Expr != nil && strings.Contains(c.canon(info, cd.Expr, o), "$N") {
+				rel = append(rel, cd)
+			}
+		}
+		code := c.condsToBexpr(info, rel, o)
+		spec := bCmp("$N", token.NEQ, "$PREV")
+		eq, wit, _, err := gfEquiv(code, spec)
+		if err != nil {
+			c.Undecided(rule, key, call.Pos(), err.Error())
+			continue
+		}
+		c.Check(eq, rule, key, call.Pos(), "descends into every neighbour except the one it came from", "the walk descends into a neighbour only under "+code.String()+": a node that does not satisfy the extra condition hides everything below it ("+wit+")").Clause = clause
+	}
+	if n == 0 {
+		c.Undecided(rule, fi.Name()+"/descends-into-every-neighbour", fi.Decl.Pos(), "no recursive call found")
+	}
+}
+
+// ---------------------------------------------------------------------------------------------
+// TABLE (matrix command): the -m values documented for `gotree matrix` select the metric they name:
+// in the switch over the option, the case that lists "brlen" stores DISTANCE_METRIC_BRLEN, the one
+// that lists "boot" DISTANCE_METRIC_BOOTS and the one that lists "none" DISTANCE_METRIC_NONE.
+func (c *Ctx) matrixMetricTable(rule string, clause string) {
+	want := map[string]string{"brlen": "DISTANCE_METRIC_BRLEN", "boot": "DISTANCE_METRIC_BOOTS", "none": "DISTANCE_METRIC_NONE"}
+	seen := map[string]bool{}
+	for _, fi := range c.funcsInFiles("cmd/matrix.go") {
+		info := fi.Pkg.TypesInfo
+		ast.Inspect(fi.Decl.Body, func(n ast.Node) bool {
+			sw, ok := n.(*ast.SwitchStmt)
+			if !ok || sw.Tag == nil {
+				return true
+			}
+			for _, st := range sw.Body.List {
+				cc := st.(*ast.CaseClause)
+				for _, v := range cc.List {
+					tv, ok := info.Types[v]
+					if !ok || tv.Value == nil {
+						continue
+					}
+					val := strings.Trim(tv.Value.ExactString(), `"`)
+					w, known := want[val]
+					if !known {
+						continue
+					}
+					seen[val] = true
+					// the constant stored in this case
+					got := ""
+					for _, s2 := range cc.Body {
+						ast.Inspect(s2, func(m ast.Node) bool {
+							switch x := m.(type) {
+							case *ast.SelectorExpr:
+								if cn, ok := info.Uses[x.Sel].(*types.Const); ok && strings.HasPrefix(cn.Name(), "DISTANCE_METRIC_") {
+									got = cn.Name()
+								}
+							}
+							return true
+						})
+					}
+					c.Check(got == w, rule, "cmd/matrix/-m "+val, cc.Pos(), "-m "+val+" selects "+w, "-m "+val+" selects "+got+" instead of "+w+": the matrix printed is the one of another metric").Clause = clause
+				}
+			}
+			return true
+		})
+	}
+	// the same table written as a map literal from option value to metric constant
+	for _, fi := range c.funcsInFiles("cmd/matrix.go") {
+		info := fi.Pkg.TypesInfo
+		ast.Inspect(fi.Decl.Body, func(n ast.Node) bool {
+			kv, ok := n.(*ast.KeyValueExpr)
+			if !ok {
+				return true
+			}
+			tv, ok := info.Types[kv.Key]
+			if !ok || tv.Value == nil {
+				return true
+			}
+			val := strings.Trim(tv.Value.ExactString(), `"`)
+			w, known := want[val]
+			if !known || seen[val] {
+				return true
+			}
+			got := ""
+			if sel, ok := unparen(kv.Value).(*ast.SelectorExpr); ok {
+				if cn, ok := info.Uses[sel.Sel].(*types.Const); ok {
+					got = cn.Name()
+				}
+			}
+			if !strings.HasPrefix(got, "DISTANCE_METRIC_") {
+				return true
+			}
+			seen[val] = true
+			c.Check(got == w, rule, "cmd/matrix/-m "+val, kv.Pos(), "-m "+val+" selects "+w, "-m "+val+" selects "+got+" instead of "+w+": the matrix printed is the one of another metric").Clause = clause
+			return true
+		})
+	}
+	for v := range want {
+		if !seen[v] {
+			c.Undecided(rule, "cmd/matrix/-m "+v, token.NoPos, "no case for the documented value "+v+" found in the switch over the metric option")
+		}
+	}
+}
+
+// n2TrimSpace: body calls strings.TrimSpace (which removes a trailing carriage return too).
+func n2TrimSpace(info *types.Info, body ast.Node) (bool, bool) {
+	found := false
+	for _, call := range callsIn(body, true) {
+		if fn := calleeOf(info, call); fn != nil && fn.Pkg() != nil && fn.Pkg().Path() == "strings" && fn.Name() == "TrimSpace" {
+			found = true
+		}
+	}
+	return found, true
+}
+
+// ---------------------------------------------------------------------------------------------
+// TRIM-WS: the Newick reader alters a label only by removing white space around it. In package
+// io/newick every strings.Trim*/Replace* call either is TrimSpace or has a constant cut set / old
+// text made of white space only: removing anything else (quotes, underscores) changes names that the
+// writer wrote out unchanged, and the second write differs from the first.
+func (c *Ctx) trimWhiteSpaceOnly(rule string, funcs []*FuncInfo, clause string) (calls, violations int) {
+	for _, fi := range funcs {
+		info := fi.Pkg.TypesInfo
+		k := 0
+		for _, call := range callsIn(fi.Decl.Body, true) {
+			fn := calleeOf(info, call)
+			if fn == nil || fn.Pkg() == nil || (fn.Pkg().Path() != "strings" && fn.Pkg().Path() != "bytes") {
+				continue
+			}
+			argIdx := -1
+			switch fn.Name() {
+			case "TrimSpace":
+				calls++
+				k++
+				c.OK(rule, fmt.Sprintf("%s/%s#%d", funcName(fi.Obj), fn.Name(), k), call.Pos(), "white space only").Clause = clause
+				continue
+			case "Trim", "TrimLeft", "TrimRight", "TrimPrefix", "TrimSuffix", "Replace", "ReplaceAll":
+				argIdx = 1
+			case "TrimFunc", "TrimLeftFunc", "TrimRightFunc", "Map":
+				argIdx = -2
+			default:
+				continue
+			}
+			calls++
+			k++
+			key := fmt.Sprintf("%s/%s#%d", funcName(fi.Obj), fn.Name(), k)
+			good := false
+			if argIdx >= 0 && argIdx < len(call.Args) {
+				if tv, ok := info.Types[call.Args[argIdx]]; ok && tv.Value != nil {
+					s, err := strconvUnquote(tv.Value.ExactString())
+					good = err == nil && strings.TrimSpace(s) == "" && s != ""
+				}
+			}
+			if good {
+				c.OK(rule, key, call.Pos(), "removes white space only").Clause = clause
+			} else {
+				violations++
+				c.Violation(rule, key, call.Pos(), "`"+c.src(call)+"` removes or rewrites characters other than white space in a text read from the Newick input: a label that contains them is not read back as it was written").Clause = clause
+			}
+		}
+	}
+	return
+}
+
+func strconvUnquote(s string) (string, error) {
+	if len(s) >= 2 && s[0] == '"' {
+		return strconv.Unquote(s)
+	}
+	return s, nil
+}
+
+// ---------------------------------------------------------------------------------------------
+// ALLOC-INPUT: in the reader packages no allocation is sized by a number parsed from the input
+// (strconv.Atoi/ParseInt/ParseUint/ParseFloat): `make([]T, 0, ntax)` with NTAX read from the file
+// panics ("cap out of range") or exhausts memory on a corrupted dimension, where the reader is
+// expected to answer with an error. Sizes are constants, len(...) of something already read, or
+// arithmetic over these.
+func (c *Ctx) allocFromInput(rule string, funcs []*FuncInfo, clause string) (makes, violations int) {
+	for _, fi := range funcs {
+		info := fi.Pkg.TypesInfo
+		tainted := map[types.Object]bool{}
+		isParse := func(e ast.Expr) bool {
+			cl, ok := unparen(e).(*ast.CallExpr)
+			if !ok {
+				return false
+			}
+			fn := calleeOf(info, cl)
+			if fn != nil && fn.Pkg() != nil && fn.Pkg().Path() == "strconv" && (fn.Name() == "Atoi" || strings.HasPrefix(fn.Name(), "Parse")) {
+				return true
+			}
+			return false
+		}
+		mentionsTainted := func(e ast.Expr) bool {
+			found := false
+			ast.Inspect(e, func(m ast.Node) bool {
+				if id, ok := m.(*ast.Ident); ok {
+					if o := info.Uses[id]; o != nil && tainted[o] {
+						found = true
+					}
+				}
+				return true
+			})
+			return found
+		}
+		for iter := 0; iter < 3; iter++ {
+			ast.Inspect(fi.Decl.Body, func(n ast.Node) bool {
+				as, ok := n.(*ast.AssignStmt)
+				if !ok {
+					return true
+				}
+				if len(as.Rhs) == 1 && isParse(as.Rhs[0]) {
+					if o := identObj(info, as.Lhs[0]); o != nil {
+						tainted[o] = true
+					}
+					return true
+				}
+				if len(as.Lhs) == len(as.Rhs) {
+					for i, r := range as.Rhs {
+						if mentionsTainted(r) {
+							if o := identObj(info, as.Lhs[i]); o != nil && isNumeric(o.Type()) {
+								tainted[o] = true
+							}
+						}
+					}
+				}
+				return true
+			})
+		}
+		k := 0
+		for _, call := range callsIn(fi.Decl.Body, true) {
+			id, ok := unparen(call.Fun).(*ast.Ident)
+			if !ok || id.Name != "make" || len(call.Args) < 2 {
+				continue
+			}
+			if _, isB := info.Uses[id].(*types.Builtin); !isB {
+				continue
+			}
+			makes++
+			k++
+			key := fmt.Sprintf("%s/make#%d", funcName(fi.Obj), k)
+			bad := false
+			for _, a := range call.Args[1:] {
+				if mentionsTainted(a) {
+					bad = true
+				}
+			}
+			if bad {
+				violations++
+				c.Violation(rule, key, call.Pos(), "`"+c.src(call)+"` is sized by a number parsed from the input: a corrupted dimension makes the reader panic or exhaust memory instead of reporting an error").Clause = clause
+			} else {
+				c.OK(rule, key, call.Pos(), "size does not come from a number parsed from the input").Clause = clause
+			}
+		}
+	}
+	return
+}
+
+// ---------------------------------------------------------------------------------------------
+// ARRIVAL-ORDER: sync/atomic makes a shared counter safe, not deterministic: the number
+// atomic.AddInt32(&n, 1) hands back to a goroutine depends on which goroutine got there first. Inside
+// a `go` function the result of an atomic Add/Swap/CompareAndSwap is therefore not used (the call is
+// a statement): an identifier, a file name or an index taken from it differs from run to run.
+func (c *Ctx) arrivalOrder(rule string, pkgs []*packages.Package, clause string) (calls, violations int) {
+	for _, p := range pkgs {
+		info := p.TypesInfo
+		for _, f := range p.Syntax {
+			walkStack(f, func(n ast.Node, stack []ast.Node) bool {
+				call, ok := n.(*ast.CallExpr)
+				if !ok {
+					return true
+				}
+				fn := calleeOf(info, call)
+				if fn == nil || fn.Pkg() == nil || fn.Pkg().Path() != "sync/atomic" {
+					return true
+				}
+				if !strings.HasPrefix(fn.Name(), "Add") && !strings.HasPrefix(fn.Name(), "Swap") && !strings.HasPrefix(fn.Name(), "CompareAndSwap") {
+					return true
+				}
+				inGo := false
+				for i, a := range stack {
+					if _, ok := a.(*ast.GoStmt); ok && i+2 < len(stack) {
+						inGo = true
+					}
+				}
+				if !inGo {
+					return true
+				}
+				calls++
+				key := fmt.Sprintf("%s/atomic.%s#%d", c.enclosingFuncName(info, stack), fn.Name(), calls)
+				if _, isStmt := stack[len(stack)-1].(*ast.ExprStmt); isStmt {
+					c.OK(rule, key, call.Pos(), "the counter is only incremented").Clause = clause
+				} else {
+					violations++
+					c.Violation(rule, key, call.Pos(), "the value returned by `"+c.src(call)+"` inside a goroutine is used: it is the rank in which this goroutine reached the counter, which changes from run to run").Clause = clause
+				}
+				return true
+			})
+		}
+	}
+	return
+}
+
+// ---------------------------------------------------------------------------------------------
+// REDRAW: a uniform draw that is repeated until its result pleases (a `for cond { draw }` loop whose
+// condition is not a plain counter) is rejection sampling: the outcomes that are rejected get
+// probability 0 and the others share it. In the random commands and the library operations behind
+// them no while-style loop contains a call that reaches math/rand.
+func (c *Ctx) redraw(rule string, funcs []*FuncInfo, clause string) (loops, violations int) {
+	isRand := func(f *types.Func) bool { return f.Pkg() != nil && f.Pkg().Path() == "math/rand" }
+	for _, fi := range funcs {
+		info := fi.Pkg.TypesInfo
+		k := 0
+		ast.Inspect(fi.Decl.Body, func(n ast.Node) bool {
+			fs, ok := n.(*ast.ForStmt)
+			if !ok || fs.Cond == nil || isIndexLoop(info, fs) {
+				return true
+			}
+			loops++
+			k++
+			key := fmt.Sprintf("%s/while-loop#%d", funcName(fi.Obj), k)
+			var bad *ast.CallExpr
+			for _, call := range callsIn(fs.Body, false) {
+				g := calleeOf(info, call)
+				if g == nil {
+					continue
+				}
+				if isRand(g) || (inRepo(g) && c.callsOutside(g, isRand, 3, map[*types.Func]bool{})) {
+					bad = call
+					break
+				}
+			}
+			if bad != nil {
+				violations++
+				c.Violation(rule, key, bad.Pos(), "`"+c.src(bad)+"` draws at random inside a loop that repeats while `"+c.src(fs.Cond)+"`: the draw is repeated until its result is accepted, so the rejected outcomes never occur and the others are no longer equally likely").Clause = clause
+			} else {
+				c.OK(rule, key, fs.Pos(), "no random draw inside").Clause = clause
+			}
+			return true
+		})
+	}
+	return
+}
+
+// callsOutside: fn (a repository function) calls, directly or through repository callees (bounded
+// depth), a function outside the repository that satisfies target.
+func (c *Ctx) callsOutside(fn *types.Func, target func(*types.Func) bool, depth int, seen map[*types.Func]bool) bool {
+	if fn == nil || depth < 0 || seen[fn] {
+		return false
+	}
+	seen[fn] = true
+	fi := c.FuncOfObj(fn)
+	if fi == nil || fi.Decl.Body == nil {
+		return false
+	}
+	for _, call := range callsIn(fi.Decl.Body, true) {
+		g := calleeOf(fi.Pkg.TypesInfo, call)
+		if g == nil {
+			continue
+		}
+		if !inRepo(g) {
+			if target(g) {
+				return true
+			}
+			continue
+		}
+		if c.callsOutside(g, target, depth-1, seen) {
+			return true
+		}
+	}
+	return false
+}
+
+// ---------------------------------------------------------------------------------------------
+// INDEX-OWNER: `i, err := A.NodeIndex(B)` (or A.EdgeIndex(e)) is the position of B among A's
+// neighbours. It is used to index A's own parallel slices (A.neigh[i], A.br[i]) and nobody else's:
+// the position of A among B's neighbours is another number, and storing at it overwrites an
+// unrelated neighbour while the call still returns without error.
+func (c *Ctx) indexOwner(rule string, funcs []*FuncInfo, clause string) (uses, violations int) {
+	for _, fi := range funcs {
+		info := fi.Pkg.TypesInfo
+		lo := c.localExpansions(info, fi.Decl.Body)
+		type def struct {
+			pos   token.Pos
+			owner string
+			call  *ast.CallExpr
+		}
+		defs := map[types.Object][]def{}
+		ast.Inspect(fi.Decl.Body, func(n ast.Node) bool {
+			as, ok := n.(*ast.AssignStmt)
+			if !ok || len(as.Rhs) != 1 || len(as.Lhs) < 1 {
+				return true
+			}
+			call, ok := unparen(as.Rhs[0]).(*ast.CallExpr)
+			if !ok {
+				if o := identObj(info, as.Lhs[0]); o != nil && len(as.Lhs) == 1 {
+					defs[o] = append(defs[o], def{as.Pos(), "", nil}) // some other value
+				}
+				return true
+			}
+			g := calleeOf(info, call)
+			o := identObj(info, as.Lhs[0])
+			if o == nil {
+				return true
+			}
+			if g != nil && (isRepoFunc(g, "tree", "Node", "NodeIndex") || isRepoFunc(g, "tree", "Node", "EdgeIndex")) {
+				if sel, ok := unparen(call.Fun).(*ast.SelectorExpr); ok {
+					defs[o] = append(defs[o], def{as.Pos(), c.canon(info, sel.X, lo), call})
+					return true
+				}
+			}
+			defs[o] = append(defs[o], def{as.Pos(), "", nil})
+			return true
+		})
+		if len(defs) == 0 {
+			continue
+		}
+		k := 0
+		ast.Inspect(fi.Decl.Body, func(n ast.Node) bool {
+			ix, ok := n.(*ast.IndexExpr)
+			if !ok {
+				return true
+			}
+			o := identObj(info, ix.Index)
+			ds, tracked := defs[o]
+			if o == nil || !tracked {
+				return true
+			}
+			sel, ok := unparen(ix.X).(*ast.SelectorExpr)
+			if !ok || (sel.Sel.Name != "neigh" && sel.Sel.Name != "br") {
+				return true
+			}
+			// the definition in force: the last one before this use
+			var cur *def
+			for i := range ds {
+				if ds[i].pos < ix.Pos() && (cur == nil || ds[i].pos > cur.pos) {
+					cur = &ds[i]
+				}
+			}
+			if cur == nil || cur.call == nil {
+				return true
+			}
+			uses++
+			k++
+			key := fmt.Sprintf("%s/%s[%s]#%d", funcName(fi.Obj), c.src(ix.X), o.Name(), k)
+			owner := c.canon(info, sel.X, lo)
+			if owner == cur.owner {
+				c.OK(rule, key, ix.Pos(), "index taken among "+cur.owner+"'s neighbours, used on "+owner).Clause = clause
+			} else {
+				violations++
+				c.Violation(rule, key, ix.Pos(), fmt.Sprintf("`%s` is a position among the neighbours of `%s` (from `%s`) but indexes the slices of `%s`: the slot written or read belongs to an unrelated neighbour", o.Name(), cur.owner, c.src(cur.call), owner)).Clause = clause
+			}
+			return true
+		})
+	}
+	return
+}
+
+// ---------------------------------------------------------------------------------------------
+// C05, RerootOutGroup after the unique-branch test: the branch the new root is placed on is the branch
+// of the LCA node that is NOT one of the outgroup's branches. In the search loop the flag is set
+// exactly where the candidate equals one of the outgroup's branches, and the candidate is taken
+// exactly where the flag stayed false; the two halves of the cut branch are stored exactly when the
+// branch has a length; the tip index is refreshed whenever the outgroup was removed.
+func (c *Ctx) rerootOutgroupDetails(fi *FuncInfo) {
+	info := fi.Pkg.TypesInfo
+	name := "tree.Tree.RerootOutGroup"
+	clause := "that outgroup is exactly one of the two clades below the root, the separating branch being cut into two equal halves"
+	var nObj, eObj types.Object
+	ast.Inspect(fi.Decl.Body, func(n ast.Node) bool {
+		if as, ok := n.(*ast.AssignStmt); ok && len(as.Rhs) == 1 && len(as.Lhs) == 4 {
+			if call, ok := unparen(as.Rhs[0]).(*ast.CallExpr); ok && isRepoFunc(calleeOf(info, call), "tree", "Tree", "LeastCommonAncestorUnrooted") {
+				nObj, eObj = identObj(info, as.Lhs[0]), identObj(info, as.Lhs[1])
+			}
+		}
+		return true
+	})
+	if nObj == nil || eObj == nil {
+		return
+	}
+	// (1) the search
+	walkStack(fi.Decl.Body, func(n ast.Node, stack []ast.Node) bool {
+		outer, ok := n.(*ast.RangeStmt)
+		if !ok || outer.Value == nil || c.canon(info, outer.X, nil) != nObj.Name()+".br" {
+			return true
+		}
+		cand := identObj(info, outer.Value)
+		var inner *ast.RangeStmt
+		ast.Inspect(outer.Body, func(m ast.Node) bool {
+			if rs, ok := m.(*ast.RangeStmt); ok && rs.Value != nil && identObj(info, rs.X) == eObj {
+				inner = rs
+			}
+			return true
+		})
+		if inner == nil {
+			return true
+		}
+		member := identObj(info, inner.Value)
+		// the flag: a bool set to true inside the inner loop
+		var flag types.Object
+		okSet := false
+		ast.Inspect(inner.Body, func(m ast.Node) bool {
+			as, ok := m.(*ast.AssignStmt)
+			if !ok || len(as.Lhs) != 1 || len(as.Rhs) != 1 {
+				return true
+			}
+			tv, isC := info.Types[as.Rhs[0]]
+			if !isC || tv.Value == nil || tv.Value.String() != "true" {
+				return true
+			}
+			flag = identObj(info, as.Lhs[0])
+			if conds, okc := c.pathConds(info, fi.Decl.Body, as, true); okc && len(conds) == 1 && conds[0].Expr != nil && !conds[0].Neg {
+				if be, ok := unparen(conds[0].Expr).(*ast.BinaryExpr); ok && be.Op == token.EQL {
+					a, b := identObj(info, be.X), identObj(info, be.Y)
+					okSet = (a == cand && b == member) || (a == member && b == cand)
+				}
+			}
+			return true
+		})
+		if flag == nil {
+			return true
+		}
+		c.Check(okSet, "GF", name+"/outgroup-branch-recognised", inner.Pos(), "the flag is set exactly where the candidate is one of the outgroup's branches", "the search for the root branch does not set its flag exactly where the candidate branch equals one of the outgroup's branches").Clause = clause
+		// the candidate is taken where the flag stayed false
+		okTake, seenTake := false, false
+		ast.Inspect(outer.Body, func(m ast.Node) bool {
+			as, ok := m.(*ast.AssignStmt)
+			if !ok || len(as.Lhs) != 1 || len(as.Rhs) != 1 || identObj(info, as.Rhs[0]) != cand || nodeContains(inner, as.Pos()) {
+				return true
+			}
+			seenTake = true
+			if conds, okc := c.pathConds(info, fi.Decl.Body, as, true); okc && len(conds) == 1 && conds[0].Expr != nil {
+				e := unparen(conds[0].Expr)
+				neg := conds[0].Neg
+				if u, ok := e.(*ast.UnaryExpr); ok && u.Op == token.NOT {
+					e, neg = unparen(u.X), !neg
+				}
+				okTake = identObj(info, e) == flag && neg
+			}
+			return true
+		})
+		if seenTake {
+			c.Check(okTake, "GF", name+"/root-branch-outside-outgroup", outer.Pos(), "the branch taken is the one that is not among the outgroup's", "the branch on which the root is placed is not taken exactly where the candidate is NOT one of the outgroup's branches").Clause = clause
+		}
+		return true
+	})
+	// (2) halves stored iff the branch has a length
+	for _, sc := range c.setterCalls(info, fi.Decl.Body, "length", nil) {
+		conds, okc := c.pathConds(info, fi.Decl.Body, sc.call, false)
+		if !okc {
+			continue
+		}
+		good := false
+		for _, cd := range conds {
+			if cd.Expr == nil {
+				continue
+			}
+			if be, ok := unparen(cd.Expr).(*ast.BinaryExpr); ok && (be.Op == token.NEQ || be.Op == token.EQL) {
+				if (strings.HasSuffix(c.src(be.Y), "NIL_LENGTH") || strings.HasSuffix(c.src(be.X), "NIL_LENGTH")) && ((be.Op == token.NEQ) != cd.Neg) {
+					good = true
+				}
+			}
+		}
+		c.Check(good, "GF", fmt.Sprintf("%s/half-stored-iff-length@%s", name, c.src(sc.call.Fun)), sc.call.Pos(), "half of the length stored where the cut branch has a length", "a half of the cut branch's length is stored on a path that does not establish that the branch has a length (`!= NIL_LENGTH`): an absent length (-1) is halved into -0.5").Clause = clause
+	}
+	// (3) UpdateTipIndex whenever the outgroup was removed
+	remove := paramObj(info, fi.Decl, 0)
+	for _, call := range callsIn(fi.Decl.Body, false) {
+		if !isRepoFunc(calleeOf(info, call), "tree", "Tree", "UpdateTipIndex") {
+			continue
+		}
+		conds, okc := c.pathConds(info, fi.Decl.Body, call, false)
+		good := okc
+		for _, cd := range conds {
+			if cd.Expr != nil && identObj(info, cd.Expr) == remove && cd.Neg {
+				good = false
+			}
+			if u, ok := unparen(cd.Expr).(*ast.UnaryExpr); ok && cd.Expr != nil && u.Op == token.NOT && identObj(info, u.X) == remove && !cd.Neg {
+				good = false
+			}
+		}
+		c.Check(good, "GF", name+"/tip-index-after-removal", call.Pos(), "the tip index is refreshed when the outgroup was removed", "the tip index is refreshed only when the outgroup was NOT removed: after a removal the look-ups by name still see the removed tips").Clause = "the outgroup is absent with everything else intact when its removal is requested"
+	}
 }
